@@ -102,6 +102,9 @@ def run(ctx):
         t = os.path.join(ctx.work, "setters.ndjson")
         lib.run_driver(exe, ["setters", t, scratch, 1 if q else 6], env={"VERIF_SEED": str(ctx.seed)}, timeout=900, allow_fail=True)
         seam.append(t)
+        t = os.path.join(ctx.work, "regeo.ndjson")
+        lib.run_driver(exe, ["regeo", t, scratch, 2 if q else 12], env={"VERIF_SEED": str(ctx.seed)}, timeout=900, allow_fail=True)
+        seam.append(t)
         fams.append(("seam", "Trace_PoissonLL", seam, 4000 if q else 12000))
         t = os.path.join(ctx.work, "real.ndjson")
         lib.run_driver(exe_real, ["real", t, scratch, 16 if q else 64], env={"VERIF_SEED": str(ctx.seed)}, timeout=900, allow_fail=True)
@@ -126,7 +129,7 @@ def run(ctx):
                 jobs.append((label, module, c[0]))
     res = _validate_jobs(jobs, W, 1500)
     ctx.notes.append("wall: model checks %.0fs, recording %.0fs, trace validation %.0fs" % (t1 - t0, t3 - t1, time.time() - t3))
-    seen = {"kinds": set(), "tof": set(), "norm": set(), "N": set(), "fill": set(), "flags": set(), "refused": 0, "real_sw": set(), "real_kinds": set(), "lm": set(), "patlak": set()}
+    seen = {"kinds": set(), "tof": set(), "norm": set(), "N": set(), "fill": set(), "flags": set(), "refused": 0, "real_sw": set(), "real_kinds": set(), "lm": set(), "patlak": set(), "regeo": set()}
     nobj = 0
     famcount = {}
     for (label, module, p, ok, r, at) in res:
@@ -137,11 +140,17 @@ def run(ctx):
             ctx.violation("trace not consumed (line %s)" % at, p)
             continue
         inst = None
+        prev_bins = None
         for rec in recs:
             e = rec["e"]
             if e == "Instance":
                 inst = rec
                 nobj += 1
+                if label == "seam" and rec.get("regeo"):
+                    # re-use of one object across data geometries: (bins before, bins now) of every second life
+                    if rec["reuse"] and prev_bins is not None:
+                        seen["regeo"].add((prev_bins, rec["numBins"]))
+                    prev_bins = rec["numBins"]
                 if label == "seam":
                     seen["tof"].add((rec["tof"], rec["tofSensAsked"]))
                     seen["norm"].add(rec["norm"])
@@ -198,7 +207,7 @@ def run(ctx):
                 raise lib.ModelFailure("trace %s is truncated (driver died outside a recorded call)" % t)
         missing = [k for k in KINDS if k not in seen["kinds"]]
         if (len(seen["tof"]) < 3 or len(seen["norm"]) < 5 or not {1, 2, 3, 4} <= seen["N"] or len(seen["fill"]) < 3 or missing
-                or len(seen["flags"]) < 18 or seen["refused"] < 100 or len(seen["real_sw"]) < 4 or len(seen["real_kinds"]) < 6 or len(seen["lm"]) < 8 or len(seen["patlak"]) < 6):
+                or len(seen["flags"]) < 18 or seen["refused"] < 100 or len(seen["real_sw"]) < 4 or len(seen["real_kinds"]) < 6 or len(seen["lm"]) < 8 or len(seen["patlak"]) < 6 or len(seen["regeo"]) < 10):
             raise lib.ModelFailure("recorded traces do not cover the option space: %s missing=%s" % ({k: (sorted(map(str, v)) if isinstance(v, set) else v) for k, v in seen.items()}, missing))
     ctx.extra["objects"] = nobj
     ctx.exhaustive = False
